@@ -53,7 +53,7 @@ func p64(v int64) *int64 { return &v }
 func init() {
 	register(&propDef{
 		id: "C08", level: "exploration", quickRuns: 192, thoroughRuns: 4000, wallPerRun: 3 * time.Minute,
-		rule: "A reference peer written from docs/protocol.md carries an explicit clock = bubble clock + d and talks to one real endpoint (reference client -> real server, real client -> reference server; TCP and UDP). Accept grid: d in [-60 s, +60 s] minus the link latency, dense at the ends, with the run's start phase placed around the 120 s key-slot changes and the 60 s timestamp ticks (+-1 us, +-1 s), plus clock jumps of the reference peer mid-session that stay inside the tolerance: the handshake must succeed and data must echo intact. Refuse grid: timestamp >= 2 minutes away with a valid key, key >= 4 minutes away with a fresh timestamp, both skewed by 2..60 minutes: nothing is accepted and (client mode) not a byte comes back. Plus key-cache histories: sequences of lookups with arbitrary, non-monotonic instants around slot changes and cache ages around 30 s: the cipher list / per-user decryptor served for instant t opens exactly the three candidate slots of t and nothing 4 or more minutes away.",
+		rule:        "A reference peer written from docs/protocol.md carries an explicit clock = bubble clock + d and talks to one real endpoint (reference client -> real server, real client -> reference server; TCP and UDP). Accept grid: d in [-60 s, +60 s] minus the link latency, dense at the ends, with the run's start phase placed around the 120 s key-slot changes and the 60 s timestamp ticks (+-1 us, +-1 s), plus clock jumps of the reference peer mid-session that stay inside the tolerance: the handshake must succeed and data must echo intact. Refuse grid: timestamp >= 2 minutes away with a valid key, key >= 4 minutes away with a fresh timestamp, both skewed by 2..60 minutes: nothing is accepted and (client mode) not a byte comes back. Plus key-cache histories: sequences of lookups with arbitrary, non-monotonic instants around slot changes and cache ages around 30 s: the cipher list / per-user decryptor served for instant t opens exactly the three candidate slots of t and nothing 4 or more minutes away.",
 		assumptions: []string{"the skewed node is always the reference peer (mieru reads time.Now() directly; two bubbles cannot share channels)", "the accept grid subtracts twice the link latency plus 50 ms from the 60 s tolerance: a stamp ages while it travels"},
 		components:  realComponents,
 		gen: func(master uint64, idx int, tier string) *spec.RunSpec {
@@ -119,7 +119,7 @@ func init() {
 	})
 	register(&propDef{
 		id: "C09", level: "exploration", quickRuns: 192, thoroughRuns: 4000, wallPerRun: 5 * time.Minute,
-		rule: "Direction 1: in C01/C02/C03-style runs the tap must decode EVERY segment a real endpoint emits with the user's credential using the reference codec (key slot within +-1 of the emission instant, documented field ranges, nonce progression per transport, tag placement, low-entropy canonical form); an undecodable emitted segment is the violation. Direction 2: a reference client drives a real server and a reference server answers a real client (TCP and UDP, loss-free link) using every freedom the document allows - padding lengths 0..255 in each position, any valid half-mask/rotation/mode and either padding bit, maximal payloads (32768 / 32764 in mode 32), piggy-backed open payload up to 1024 bytes, ack-only segments in between; the real application must receive exactly the bytes (PRF echo).",
+		rule:        "Direction 1: in C01/C02/C03-style runs the tap must decode EVERY segment a real endpoint emits with the user's credential using the reference codec (key slot within +-1 of the emission instant, documented field ranges, nonce progression per transport, tag placement, low-entropy canonical form); an undecodable emitted segment is the violation. Direction 2: a reference client drives a real server and a reference server answers a real client (TCP and UDP, loss-free link) using every freedom the document allows - padding lengths 0..255 in each position, any valid half-mask/rotation/mode and either padding bit, maximal payloads (32768 / 32764 in mode 32), piggy-backed open payload up to 1024 bytes, ack-only segments in between; the real application must receive exactly the bytes (PRF echo).",
 		assumptions: []string{"refproto (written only from docs/protocol.md) is the trusted base and shares no code with /repo", "UDP reference peers run on a loss-free link: they implement acknowledgements, not recovery"},
 		components:  realComponents,
 		gen: func(master uint64, idx int, tier string) *spec.RunSpec {
